@@ -47,7 +47,11 @@ Pm1CoverCells == {[family |-> "pm1cover", kind |-> "tail", block |-> j] :
                     j \in (IF Thorough THEN 0..(TailBlocks - 1) ELSE {0, 1, 2, 700, 1300, TailBlocks - 2, TailBlocks - 1})}
                  \cup {[family |-> "pm1cover", kind |-> "power", block |-> j] :
                     j \in (IF Thorough THEN 0..(PowerBlocks - 1) ELSE {0, 5, PowerBlocks - 1})}
-Cells == Pm1CoverCells \cup FermatCells \cup HighLowCells \cup UpperDiffCells \cup PatternCells \cup PermutedCells \cup CfCells \cup LhwCells \cup Pm1Cells
+\* keys of the low-Hamming-weight family on which the search starts slowly (found by probing with maxsteps = cutoff; one search per cell)
+LhwSlowCells == {[family |-> "lhwslow", index |-> i] : i \in (IF Thorough THEN 1..40 ELSE 1..4)}
+\* the shared smooth factor carries a prime power beyond the default product (r^3, r^2 for r > 863, 2^130): covered through the base 2^(n-1)
+Pm1PowCells == {[family |-> "pm1pow", bits |-> b, kind |-> k] : b \in {1024, 2048}, k \in {"r3", "r2", "two130"}}
+Cells == Pm1PowCells \cup LhwSlowCells \cup Pm1CoverCells \cup FermatCells \cup HighLowCells \cup UpperDiffCells \cup PatternCells \cup PermutedCells \cup CfCells \cup LhwCells \cup Pm1Cells
 Init == cell \in {c \in Cells : c.family # "fermat" \/ c.steps >= 0}
 Next == UNCHANGED cell
 Spec == Init /\ [][Next]_cell
